@@ -345,18 +345,22 @@ def vc_distribution(cases, results):
 # ====================================================================== C08: generalized hash tries
 
 GHT_SHAPES = {  # mirror of harness/h_coll/src/ght.rs::shapes(); checked against it at run time
-    "k1v1": {"nk": 1, "arity": 2},
-    "k2v1": {"nk": 2, "arity": 3},
-    "k2v0": {"nk": 2, "arity": 2},
-    "k1v2": {"nk": 1, "arity": 3},
-    "k3v1": {"nk": 3, "arity": 4},
-    "k0v2": {"nk": 0, "arity": 2},
+    "k1v1": {"nk": 1, "arity": 2, "nko": 2},
+    "k2v1": {"nk": 2, "arity": 3, "nko": 3},
+    "k2v0": {"nk": 2, "arity": 2, "nko": 2},
+    "k1v2": {"nk": 1, "arity": 3, "nko": 3},
+    "k3v1": {"nk": 3, "arity": 4, "nko": 4},
+    "k0v2": {"nk": 0, "arity": 2, "nko": 2},
 }
 GHT_KEY = "GhtInner/partial_cmp/incomparable-reaches-unreachable"
 
 
-def ght_op_term(op):
+def ght_op_term(op, shape=None):
     name, w = op[0], g_w(op[1])
+    if name == "join":
+        return "GJoin %s" % w
+    if name == "cart":
+        return "GCart %s %d%%nat" % (w, GHT_SHAPES[shape]["nko"])
     if name == "ins":
         return "GInsert %s %s" % (w, g_row(op[2]))
     if name in ("merge", "lmerge"):
@@ -399,7 +403,7 @@ def ght_term(case, res):
         answers = "[" + "; ".join(ght_ans_term(o, a) for o, a in zip(case["ops"], res["ans"])) + "]"
     except (ValueError, TypeError, KeyError):
         return 3  # a panic outside partial_cmp, or an unparsable answer: never right
-    ops = "[" + "; ".join(ght_op_term(o) for o in case["ops"]) + "]"
+    ops = "[" + "; ".join(ght_op_term(o, case["shape"]) for o in case["ops"]) + "]"
     return "(c08_chk %d%%nat %s %s)" % (GHT_SHAPES[case["shape"]]["nk"], ops, answers)
 
 
@@ -435,6 +439,11 @@ def ght_oracle(case):
             out.append({"n": nk})
         elif name == "is_bot":
             out.append({"b": not s})
+        elif name == "join":
+            out.append({"rows": sorted({x + y[nk:] for x in s for y in o if x[:nk] == y[:nk]})})
+            out[-1]["rows"] = [list(r) for r in out[-1]["rows"]]
+        elif name == "cart":
+            out.append({"rows": [list(r) for r in sorted({x + y for x in s for y in o})]})
     return out
 
 
@@ -491,11 +500,16 @@ def gen_ght_case(rng, tier):
             ops.append(["prefix", w, base[:rng.range(0, arity)]])
         elif r < 79:
             ops.append(["leaf", w, rng.choice(both) if both and rng.chance(3, 4) else row()])
-        elif r < 91:
+        elif r < 89:
             ops.append(["cmp", w])
-        elif r < 96:
+        elif r < 93:
             ops.append(["eq", w])
+        elif r < 96:
+            ops.append(["join", w])
         elif r < 97:
+            if len(set(map(tuple, regs[0]))) * len(set(map(tuple, regs[1]))) <= 150:
+                ops.append(["cart", w])
+        elif r < 98:
             ops.append(["height", w])
         else:
             ops.append(["is_bot", w])
@@ -543,7 +557,8 @@ def ght_nontrivial(case, res):
 def ght_distribution(cases, results):
     d = {"shape": {}, "ops": {}, "cmp": {}, "merge_changed": {"true": 0, "false": 0},
          "history_len": {"1-5": 0, "6-20": 0, "21-40": 0, "41+": 0}, "prefix_len": {},
-         "leaf_found": 0, "leaf_missing": 0, "case_level_panics_or_hangs": 0}
+         "leaf_found": 0, "leaf_missing": 0, "case_level_panics_or_hangs": 0,
+         "join_rows": {"0": 0, "1-5": 0, "6+": 0}, "cart_rows": {"0": 0, "1-20": 0, "21+": 0}}
     for c, r in zip(cases, results):
         d["shape"][c["shape"]] = d["shape"].get(c["shape"], 0) + 1
         n = len(c["ops"])
@@ -564,6 +579,12 @@ def ght_distribution(cases, results):
                 d["cmp"][k] = d["cmp"].get(k, 0) + 1
             if op[0] in ("merge", "lmerge") and "b" in a:
                 d["merge_changed"]["true" if a["b"] else "false"] += 1
+            if op[0] == "join" and "rows" in a:
+                n = len(a["rows"])
+                d["join_rows"]["0" if n == 0 else "1-5" if n <= 5 else "6+"] += 1
+            if op[0] == "cart" and "rows" in a:
+                n = len(a["rows"])
+                d["cart_rows"]["0" if n == 0 else "1-20" if n <= 20 else "21+"] += 1
             if op[0] == "leaf" and "optrows" in a:
                 d["leaf_found" if a["optrows"] is not None else "leaf_missing"] += 1
     return d
